@@ -1,7 +1,11 @@
 // Package rules holds, per property, the rule instances and frozen tables.
 package rules
 
-import "xvc/q"
+import (
+	"golang.org/x/tools/go/ssa"
+
+	"xvc/q"
+)
 
 type PropInfo struct {
 	Explanation string
@@ -15,4 +19,9 @@ var Info = map[string]PropInfo{}
 func register(id string, f func(*q.Ctx), info PropInfo) {
 	All[id] = f
 	Info[id] = info
+}
+
+func isDefer(ci interface{}) bool {
+	_, ok := ci.(*ssa.Defer)
+	return ok
 }
